@@ -3,7 +3,7 @@ from fractions import Fraction as F
 
 import sympy as sp
 
-from ..frontend import AnalysisError, loc
+from ..frontend import AnalysisError, loc, normalise
 from ..values import *      # noqa
 from .. import contexts as C
 from ..d1rules import check_sink, report_conflicts, blocked
@@ -56,6 +56,12 @@ def run(prog, rep, tier='quick'):
         caps = itp.captured.get(f.qname, [])
         if not caps:
             rep.undecided('pad', f.qname, label, 'no return captured', where)
+            continue
+        rp = [e for e in itp.events if e[0] == 'resize-repeat' and e[2] == f.qname]
+        for e in rp:
+            rep.violation('pad', f.qname, '%s [%s]' % (normalise(e[1]), label), 'numpy.resize fills the longer array with repeated copies '
+                          'of the data: the shorter input is periodically extended, not zero-padded', loc(f.mod, e[1]))
+        if rp:
             continue
         for var, own, other in (('x', 'x', 'y'), ('y', 'y', 'x')):
             n_pad += 1
